@@ -58,6 +58,8 @@ def parseOp (l : Line) : Option StoreOp := do
   | "get" => pure (.get (← l.get "k").toList)
   | "getp" => pure (.getPartial (← l.get "k").toList (← ((← l.get "r").splitOn ",").mapM parseRange))
   | "size" => pure (.sizeKey (← l.get "k").toList)
+  -- `StorageValueIO`: seek to `pos`, one `read` of `len` bytes = the ranged get `pos..pos+len` (short read = truncated slice)
+  | "vio" => pure (.getPartial (← l.get "k").toList [.fromStart (← l.nat "pos") (some (← l.nat "len"))])
   | "sizep" => pure (.sizePrefix (prefixOf (← l.get "p")))
   | "list" => pure .list
   | "listp" => pure (.listPrefix (prefixOf (← l.get "p")))
